@@ -153,6 +153,9 @@ func RunProgCases(c *core.Ctx, cases []*ProgCase, o ProgOpts) error {
 	}
 	// --- Go gate
 	dropped := make([]bool, len(cases))
+	gated := make([]bool, len(cases))
+	var gateMu sync.Mutex
+	ondemand := 0
 	if o.GateFraction > 0 {
 		rng := rand.New(rand.NewSource(c.Seed))
 		var idx []int
@@ -174,6 +177,7 @@ func RunProgCases(c *core.Ctx, cases []*ProgCase, o ProgOpts) error {
 			gc.WantEvents = stripBook(gc.WantEvents)
 			ok := outs[k].CompileError == "" && progConforms(&gc, outs[k].Events, outs[k].Result)
 			c.Gate(ok)
+			gated[i] = true
 			if !ok {
 				dropped[i] = true
 				if shown < 3 {
@@ -228,6 +232,30 @@ func RunProgCases(c *core.Ctx, cases []*ProgCase, o ProgOpts) error {
 				}
 				mu.Unlock()
 				continue
+			}
+			// a verdict is only taken on a program the Go gate has seen: gate it now if the
+			// sampled gate did not (the first few per run; a specification bug is dropped)
+			if o.GateFraction > 0 && !gated[i] {
+				gateMu.Lock()
+				try := ondemand < 40
+				ondemand++
+				gateMu.Unlock()
+				if try {
+					imps := append([]string{"errors", "fmt"}, pc.Imports...)
+					outs, err := gate.Run(c.Verif, []gate.Prog{{Imports: imps, Decls: "var _ = errors.New\nvar _ = fmt.Sprint\n" + o.GatePrelude + "\n" + pc.Decls, Entry: pc.Entry}})
+					if err == nil && len(outs) == 1 {
+						gc := *pc
+						gc.WantEvents = stripBook(gc.WantEvents)
+						ok := outs[0].CompileError == "" && progConforms(&gc, outs[0].Events, outs[0].Result)
+						c.Gate(ok)
+						if !ok {
+							fmt.Printf("GATE-REJECT property=%s (specification disagrees with compiled Go; behaviour dropped): %s %s\n  program: %s\n",
+								c.ID, outs[0].CompileError, describeDiff(pc.WantEvents, outs[0].Events, pc.WantResult, outs[0].Result),
+								strings.ReplaceAll(pc.Decls, "\n", "\n    "))
+							continue
+						}
+					}
+				}
 			}
 			sig := "mismatch"
 			if o.Sig != nil {
